@@ -411,7 +411,7 @@ impl FlatDirectLayoutExtension {
     fn new(config_bytes: Option<&[u8]>) -> Result<Self> {
         let config = match config_bytes {
             Some(config_bytes) => {
-                let config: FlatDirectLayoutConfig = serde_json::from_slice(config_bytes)?;
+                let config: FlatDirectLayoutConfig = parse_config(config_bytes)?;
                 config.validate()?;
                 config
             }
@@ -431,7 +431,7 @@ impl HashedNTupleLayoutExtension {
     fn new(config_bytes: Option<&[u8]>) -> Result<Self> {
         let config = match config_bytes {
             Some(config_bytes) => {
-                let config: HashedNTupleLayoutConfig = serde_json::from_slice(config_bytes)?;
+                let config: HashedNTupleLayoutConfig = parse_config(config_bytes)?;
                 config.validate()?;
                 config
             }
@@ -476,7 +476,7 @@ impl HashedNTupleObjectIdLayoutExtension {
         let config = match config_bytes {
             Some(config_bytes) => {
                 let config: HashedNTupleObjectIdLayoutConfig =
-                    serde_json::from_slice(config_bytes)?;
+                    parse_config(config_bytes)?;
                 config.validate()?;
                 config
             }
@@ -522,7 +522,7 @@ impl FlatOmitPrefixLayoutExtension {
     fn new(config_bytes: Option<&[u8]>) -> Result<Self> {
         let config = match config_bytes {
             Some(config_bytes) => {
-                let config: FlatOmitPrefixLayoutConfig = serde_json::from_slice(config_bytes)?;
+                let config: FlatOmitPrefixLayoutConfig = parse_config(config_bytes)?;
                 config.validate()?;
                 config
             }
@@ -592,7 +592,7 @@ impl NTupleOmitPrefixLayoutExtension {
     fn new(config_bytes: Option<&[u8]>) -> Result<Self> {
         let config = match config_bytes {
             Some(config_bytes) => {
-                let config: NTupleOmitPrefixLayoutConfig = serde_json::from_slice(config_bytes)?;
+                let config: NTupleOmitPrefixLayoutConfig = parse_config(config_bytes)?;
                 config.validate()?;
                 config
             }
@@ -713,6 +713,19 @@ fn lower_percent_escape(original: &str) -> Cow<str> {
     } else {
         original.into()
     }
+}
+
+/// Parses a layout extension configuration, which is a JSON object
+fn parse_config<T: serde::de::DeserializeOwned>(config_bytes: &[u8]) -> Result<T> {
+    let value: serde_json::Value = serde_json::from_slice(config_bytes)?;
+
+    if !value.is_object() {
+        return Err(RocflError::InvalidConfiguration(
+            "Storage layout extension configuration must be a JSON object".to_string(),
+        ));
+    }
+
+    Ok(serde_json::from_value(value)?)
 }
 
 fn validate_extension_name(
